@@ -408,3 +408,25 @@ func VerifC10SlowMatcher(n, late int) {
 	verifAssert(verifGoroutines() == 0, "no-goroutine-left-after-close")
 	verifReach("end")
 }
+
+// VerifC11CloseTwice: two goroutines close the same client at the same time (a deferred Close and
+// a shutdown watcher), every interleaving at scheduling points (blocking operations and atomic
+// reads) explored: both calls return, nothing panics, no goroutine is left.
+func VerifC11CloseTwice(withCall int) {
+	verifSchedule(true)
+	conn := newVerifConn()
+	c, err := NewWithConn(conn, verifHW, WithTimeout(time.Duration(int64(verifU32("T"))+1)), WithRetry(1))
+	verifAssert(err == nil, "client-created")
+	if withCall != 0 {
+		req := &dhcpv4.DHCPv4{OpCode: dhcpv4.OpcodeBootRequest, HWType: 1, TransactionID: verifXID, ClientHWAddr: verifHW, Options: dhcpv4.Options{53: []byte{1}}}
+		_, _ = c.SendAndRead(newVerifCtx(), verifDest(), req, nil)
+	}
+	done := make(chan error, 1)
+	go func() { done <- c.Close() }()
+	e1 := c.Close()
+	e2 := <-done
+	verifAssert(e1 == nil && e2 == nil, "close-returns")
+	verifSettle()
+	verifAssert(verifGoroutines() == 0, "no-goroutine-left-after-close")
+	verifReach("end")
+}
